@@ -13,28 +13,28 @@ vars == <<script, att, s2, ended1, pdet>>
 Init == script = <<>> /\ att = {} /\ s2 = FALSE /\ ended1 = FALSE /\ pdet = {}
 
 Ev == {"AttS1", "AttR2", "AttDup", "Refuse4", "DetS1", "CloseS1", "DropS1", "CloseR2", "PDetS1err", "PDetS1nc", "PCloseR2", "Send1", "SendDrop1", "SendDet1",
-       "Beg2", "AttS3", "Send3", "End1", "End1err", "PEnd1", "PEnd1err", "End2", "SendEnd1"}
+       "Beg2", "AttS3", "Send3", "End1", "End1err", "PEnd1", "PEnd1err", "End2", "SendEnd1", "PDetS1idle", "SendQEndErr1", "DropEndErr1"}
 Enabled(e) ==
   CASE e = "AttS1" -> ~ended1 /\ "L1" \notin att
     [] e = "AttR2" -> ~ended1 /\ "L2" \notin att
     [] e = "AttDup" -> ~ended1 /\ "L1" \in att /\ "L1" \notin pdet
     [] e = "Refuse4" -> ~ended1
-    [] e \in {"DetS1", "CloseS1", "DropS1", "PDetS1err", "PDetS1nc", "Send1", "SendDrop1", "SendDet1"} -> ~ended1 /\ "L1" \in att /\ "L1" \notin pdet
+    [] e \in {"DetS1", "CloseS1", "DropS1", "PDetS1err", "PDetS1nc", "PDetS1idle", "Send1", "SendDrop1", "SendDet1"} -> ~ended1 /\ "L1" \in att /\ "L1" \notin pdet
     [] e \in {"CloseR2", "PCloseR2"} -> ~ended1 /\ "L2" \in att /\ "L2" \notin pdet
     [] e = "Beg2" -> ~s2
     [] e = "AttS3" -> s2 /\ "L3" \notin att
     [] e = "Send3" -> s2 /\ "L3" \in att
     [] e = "End2" -> s2
     [] e \in {"End1", "End1err", "PEnd1", "PEnd1err"} -> ~ended1
-    [] e = "SendEnd1" -> ~ended1 /\ "L1" \in att /\ "L1" \notin pdet
+    [] e \in {"SendEnd1", "SendQEndErr1", "DropEndErr1"} -> ~ended1 /\ "L1" \in att /\ "L1" \notin pdet
 Step(e) ==
   /\ Len(script) < Depth /\ Enabled(e) /\ script' = Append(script, e)
   /\ att' = CASE e = "AttS1" -> att \cup {"L1"} [] e = "AttR2" -> att \cup {"L2"} [] e = "AttS3" -> att \cup {"L3"}
               [] e \in {"DetS1", "CloseS1", "DropS1", "SendDrop1", "SendDet1"} -> att \ {"L1"} [] e = "CloseR2" -> att \ {"L2"}
-              [] e \in {"End1", "End1err", "PEnd1", "PEnd1err", "SendEnd1"} -> att \ {"L1", "L2"} [] e = "End2" -> att \ {"L3"} [] OTHER -> att
+              [] e \in {"End1", "End1err", "PEnd1", "PEnd1err", "SendEnd1", "SendQEndErr1", "DropEndErr1"} -> att \ {"L1", "L2"} [] e = "End2" -> att \ {"L3"} [] OTHER -> att
   /\ s2' = IF e = "Beg2" THEN TRUE ELSE IF e = "End2" THEN FALSE ELSE s2
-  /\ ended1' = (ended1 \/ e \in {"End1", "End1err", "PEnd1", "PEnd1err", "SendEnd1"})
-  /\ pdet' = CASE e \in {"PDetS1err", "PDetS1nc"} -> pdet \cup {"L1"} [] e = "PCloseR2" -> pdet \cup {"L2"} [] OTHER -> pdet
+  /\ ended1' = (ended1 \/ e \in {"End1", "End1err", "PEnd1", "PEnd1err", "SendEnd1", "SendQEndErr1", "DropEndErr1"})
+  /\ pdet' = CASE e \in {"PDetS1err", "PDetS1nc", "PDetS1idle"} -> pdet \cup {"L1"} [] e = "PCloseR2" -> pdet \cup {"L2"} [] OTHER -> pdet
 Next == \E e \in Ev : Step(e)
 Spec == Init /\ [][Next]_vars
 
@@ -71,6 +71,12 @@ Conc(e, m) ==
     [] e = "End1" -> << [e |-> "AEnd", s |-> "s1"], [e |-> "PFrame", perf |-> "end", ch |-> 3, f |-> [err |-> ""]] >>
     [] e = "End1err" -> << [e |-> "AEnd", s |-> "s1", err |-> "internal"], [e |-> "PFrame", perf |-> "end", ch |-> 3, f |-> [err |-> ""]] >>
     [] e = "SendEnd1" -> << Send("L1", m, FALSE), [e |-> "AEnd", s |-> "s1"], [e |-> "PFrame", perf |-> "end", ch |-> 3, f |-> [err |-> ""]] >>
+    \* the peer closes the link and the application does not touch it: its handle and name stay taken until the endpoint has answered
+    [] e = "PDetS1idle" -> << PDet(3, H(5), TRUE, "") >>
+    \* work queued and the session ended with an error in the same scheduler turn
+    [] e = "SendQEndErr1" -> << [e |-> "ASend", l |-> "L1", m |-> m, len |-> 20, settled |-> TRUE, batchable |-> TRUE, nosettle |-> TRUE],
+                                [e |-> "AEnd", s |-> "s1", err |-> "internal"], [e |-> "PFrame", perf |-> "end", ch |-> 3, f |-> [err |-> ""]] >>
+    [] e = "DropEndErr1" -> << [e |-> "ADrop", h |-> "l:L1", nosettle |-> TRUE], [e |-> "AEnd", s |-> "s1", err |-> "internal"], [e |-> "PFrame", perf |-> "end", ch |-> 3, f |-> [err |-> ""]] >>
     [] e = "PEnd1" -> << [e |-> "PFrame", perf |-> "end", ch |-> 3, f |-> [err |-> ""]], [e |-> "AEnd", s |-> "s1"] >>
     [] e = "PEnd1err" -> << [e |-> "PFrame", perf |-> "end", ch |-> 3, f |-> [err |-> "x:ended"]], [e |-> "AEnd", s |-> "s1"] >>
     [] e = "End2" -> << [e |-> "AEnd", s |-> "s2"], [e |-> "PFrame", perf |-> "end", ch |-> 4, f |-> [err |-> ""]] >>
